@@ -298,6 +298,28 @@ func mashDrive(args []string) error {
 							seqs: mashRecs(grp, k), view: append([]uint64{}, mh.View()...), jd: 1, note: note + "add-group", panicked: p})
 						first = false
 					}
+				case v == 7 && len(vs) > 1:
+					// Sequences on the first (possibly tiny) part, then Add of the rest: a sketch made from few k-mers must
+					// still grow to n values
+					c := 1
+					extra := r.Intn(2) == 0
+					if extra {
+						vs = append([][]byte{randSeq(k + r.Intn(2))}, vs...) // one or two k-mers only (content now differs from the reference)
+					}
+					in := cloneSeqs(vs[:c])
+					var mh *minhash.MinHash[uint64]
+					p, _ := catch(func() { mh = mash.Sequences(nn, k, in...) })
+					if p {
+						evs = append(evs, mashEvRaw{op: "sketch", n: nn, k: k, fresh: true, same: false, seqs: mashRecs(vs[:c], k),
+							view: []uint64{}, jd: 1, note: note + "sequences-first-part", panicked: true})
+						break
+					}
+					evs = append(evs, mashEvRaw{op: "sketch", n: nn, k: k, fresh: true, same: false, seqs: mashRecs(vs[:c], k),
+						view: append([]uint64{}, mh.View()...), jd: 1, note: note + "sequences-first-part"})
+					rest := cloneSeqs(vs[c:])
+					p, _ = catch(func() { mash.Add(mh, k, rest...) })
+					evs = append(evs, mashEvRaw{op: "add", n: nn, k: k, fresh: false, same: !extra, seqs: mashRecs(vs[c:], k),
+						view: append([]uint64{}, mh.View()...), jd: 1, note: note + "add-rest", panicked: p})
 				case v == 5:
 					// Sequences, then Add of sequences that are already in: content unchanged
 					in := cloneSeqs(vs)
